@@ -112,6 +112,30 @@ PROPS["C06"] = dict(
     floor=dict(quick=2000, thorough=20000),
 )
 
+PROPS["C19"] = dict(
+    level="fault_enumeration",
+    technique="rapidcheck over event histories (close / transport cut / injected alert / renegotiation at generated scheduling rounds, also inside records) on a connected pair, an alert-grid enumerator using an independent record codec with the real keys, and a br_sslio harness with short-count and failing transport callbacks",
+    rule=("case = configuration (8 protection mode/version pairs, shared / bidi / split buffers, implementation set, transport and application "
+          "chunking) + two-way data script + one event kind at generated rounds: close by client/server/both; transport cut after k delivered "
+          "bytes; alert (level 0..255, description 0..255, or malformed: 1 byte, 3 bytes, pair split over two records, empty record first) "
+          "injected towards either side in the clear during the handshake, in the data phase, or after the victim's own close; 1..3 renegotiation "
+          "requests by either side with BR_OPT_NO_RENEGOTIATION on either side. non-trivial = the event fell inside a data exchange (bytes written) "
+          "/ an injected alert / a cut before everything had ended; distinct by (configuration, event kind, phase, position class). "
+          "c19_sslio: histories of br_sslio_write_all/flush/read/close over callbacks returning short counts and, at a generated call, -1"),
+    assumptions=["peers without RFC 5746 support are not simulated (both endpoints are BearSSL); declined renegotiation is exercised through BR_OPT_NO_RENEGOTIATION",
+                 "documented upstream behaviours are not failures: data arriving during a renegotiation is refused with BR_ERR_UNEXPECTED, a received no_renegotiation is fatal for the receiver",
+                 "known finding F4 (client renegotiation with unflushed plaintext) is constructed away and counted"],
+    targets=[dict(name="c19_closure", src="c19_closure.cpp", flavour="san", libs=SSL_LIBS, noseed=True),
+             dict(name="c19_sslio", src="c19_sslio.cpp", flavour="san", libs=SSL_LIBS, noseed=True)],
+    quick=[("c19_closure", "enum", dict(shards=16)),
+           ("c19_closure", "rc", dict(cases=6400, shards=16)),
+           ("c19_sslio", "rc", dict(cases=2400, shards=8))],
+    thorough=[("c19_closure", "enum", dict(shards=16)),
+              ("c19_closure", "rc", dict(cases=200000, shards=16)),
+              ("c19_sslio", "rc", dict(cases=60000, shards=16))],
+    floor=dict(quick=2000, thorough=20000),
+)
+
 # ---------------------------------------------------------------- manifest text
 HOOK_COMMITS = ["b37444c", "e1637c5"]
 NOT_APPLICABLE = {}
@@ -163,4 +187,15 @@ MANIFEST_TEXT["C06"] = dict(
           "configuration. Exhaustive only to that depth."),
     design_ref="DESIGN.md section 4, C06",
     note="two known findings (F4, F5) are excluded by construction and replayed by directed probes; unbounded histories are sampled, not enumerated",
+)
+
+MANIFEST_TEXT["C19"] = dict(
+    text=("Event histories on live sessions: closure requested at arbitrary scheduling rounds (inside records, with data in flight, by one or "
+          "both sides), transport cut at every kind of point judged the way a br_sslio caller sees it, the full alert grid (every level class x "
+          "all 256 descriptions x both roles x handshake/data/after-close, plus malformed forms) injected with the real keys by an independent "
+          "codec, and renegotiations at arbitrary instants incl. the disabling option, with wire-level checks (exactly one close_notify, "
+          "warning no_renegotiation, RFC 5746 binding of the renegotiated hellos to the previous Finished values). Search over histories, "
+          "exhaustive only for the alert grid."),
+    design_ref="DESIGN.md section 4, C19",
+    note="renegotiation at arbitrary instants is judged by stream integrity and closed-consistency (full delivery only when nothing failed); full-delivery renegotiation is in C20's quiesced sessions",
 )
